@@ -1,7 +1,17 @@
 """Scenario families for the runtime properties (C01 C02 C03 C10 C11 C12)."""
 
 FLAVS = ["aio", "trio", "thr"]
-FAIL_KINDS = [{"kind": "exc", "cls": c} for c in ("Tagged", "ValueError", "KeyError", "OSError", "AssertionError")] + \
+# "any Exception subclass": harness classes, builtins, and the frameworks' own exception types
+# (the runners catch some of these for their own purposes: TimeoutError is what a polling wait
+# raises, RunFinishedError / ClosedResourceError are what a closing trio runner raises, ...)
+EXC_CLASSES = ("Tagged", "TaggedTimeout", "ValueError", "KeyError", "OSError", "AssertionError", "TimeoutError", "LookupError",
+               "RuntimeError", "StopAsyncIteration", "ZeroDivisionError", "ConnectionResetError", "BrokenPipeError",
+               "NotImplementedError", "RecursionError", "MemoryError", "UnicodeError", "ExceptionGroup", "BufferError",
+               "asyncio.TimeoutError", "asyncio.InvalidStateError", "asyncio.QueueEmpty",
+               "concurrent.futures.TimeoutError", "concurrent.futures.InvalidStateError", "concurrent.futures.BrokenExecutor",
+               "trio.TooSlowError", "trio.ClosedResourceError", "trio.BrokenResourceError", "trio.RunFinishedError",
+               "trio.BusyResourceError", "trio.WouldBlock", "trio.EndOfChannel", "trio.TrioInternalError")
+FAIL_KINDS = [{"kind": "exc", "cls": c} for c in EXC_CLASSES] + \
              [{"kind": "value", "v": v} for v in ("zero", "zerof", "false", "empty", "list", "tuple", "one", "str", "obj", "falsyobj")] + \
              [{"kind": "baseExc", "cls": c} for c in ("TaggedBase", "SystemExit", "GeneratorExit")]
 
@@ -76,12 +86,22 @@ def fam_failure(rng):
         if rng.random() < 0.04:
             out = {"kind": "kbd"}
         script = [["wait", "go"], ["end", out]] if rng.random() < 0.8 else [["sleep", 0.02], ["end", out]]
-        fails.append({"pid": pid, "fl": fl, "script": script, "role": "failing", "out": out})
+        f = {"pid": pid, "fl": fl, "script": script, "role": "failing", "out": out}
+        if out["kind"] in ("exc", "baseExc") and rng.random() < 0.2:
+            # the payload fails when it is *called* (wrong arguments, a plain function that raises
+            # before it produces its awaitable): there is no coroutine body at all
+            f["callfail"] = True
+        elif rng.random() < 0.2:
+            f["plainfn"] = True
+        fails.append(f)
         pid += 1
+    for b in by:
+        if rng.random() < 0.15:
+            b["plainfn"] = True
     allp = by + fails
     before, control, helpers, pid = place(rng, allp, pid)
     allp += helpers
-    n_wait = len(allp)
+    n_wait = len(allp) - sum(1 for f in fails if f.get("callfail") and f["mode"] in ("queued", "service-before"))
     control = [["wait-running"]] + control + [["wait-count", "start", n_wait, 3], ["sleep", 0.03], ["set", "go"]]
     return {"family": "failure", "payloads": allp, "before": before, "control": control, "watchdog": 12}
 
@@ -89,10 +109,17 @@ def fam_failure(rng):
 def fam_termination(rng):
     """C02: stop for any reason with coroutine payloads that have cleanup to do"""
     by, pid = bystanders(rng, 1, cleanup=True)
-    trigger = rng.choice(["failure", "sigint", "shutdown", "shutdown-from-thread"])
+    trigger = rng.choice(["failure", "sigint", "shutdown", "shutdown-from-thread", "kbd-payload", "exit-payload"])
     extra = []
     tail = []
-    if trigger == "failure":
+    if trigger in ("kbd-payload", "exit-payload"):
+        # a payload raises KeyboardInterrupt / SystemExit itself (not delivered as a signal)
+        fl = rng.choice(FLAVS)
+        out = {"kind": "kbd"} if trigger == "kbd-payload" else {"kind": "baseExc", "cls": "SystemExit"}
+        extra.append({"pid": pid, "fl": fl, "script": [["wait", "go"], ["end", out]], "role": "failing", "out": out, "mode": "outside"})
+        pid += 1
+        tail = [["set", "go"]]
+    elif trigger == "failure":
         fl = rng.choice(FLAVS)
         extra.append({"pid": pid, "fl": fl, "script": [["wait", "go"], ["end", {"kind": "exc"}]], "role": "failing", "out": {"kind": "exc"}, "mode": "outside"})
         pid += 1
@@ -130,10 +157,46 @@ def fam_startonce(rng):
         m = rng.choice(["queued", "outside", "outside", "inside", "service-before", "service-after"])
         if m.startswith("service"):
             p["args"] = None
+            if rng.random() < 0.15:
+                p["falsy_service"] = True
         p["mode"] = m
     before, control, helpers, pid = place(rng, ps, pid)
     allp = ps + helpers
+    # bursts: the very same callable object (no arguments) adopted k times in a row, from outside
+    # or from inside a payload of some flavour - each adoption is a payload of its own
+    for g in range(rng.choice([0, 0, 1, 1, 2])):
+        fl = rng.choice(FLAVS)
+        k = rng.randint(2, 6)
+        script = [["forever", 0.02]] if fl != "thr" else [["wait", "never"]]
+        if rng.random() < 0.4:
+            script = [["sleep", 0.01], ["end", {"kind": "none"}]]
+        grp = [{"pid": pid + i, "fl": fl, "script": script, "role": "counted", "share": "g%d" % g, "mode": "burst"} for i in range(k)]
+        pid += k
+        ctx = rng.choice(["outside", "queued"] + FLAVS)
+        if ctx == "outside":
+            control += [["adopt", q["pid"]] for q in grp]
+        elif ctx == "queued":
+            before += [["adopt", q["pid"]] for q in grp]
+        else:
+            h = {"pid": pid, "fl": ctx, "role": "helper", "mode": "outside",
+                 "script": [["adopt", q["pid"]] for q in grp] + [["forever", 0.02] if ctx != "thr" else ["wait", "never"]]}
+            pid += 1
+            allp.append(h)
+            control.append(["adopt", h["pid"]])
+        allp += grp
+    # generations of services: instances that finish are dropped and collected while the runtime
+    # keeps running; later instances are still started exactly once each
+    gens = []
     race = rng.random() < 0.25
+    if not race and rng.random() < 0.4:
+        for gen in range(rng.randint(2, 4)):
+            fl = rng.choice(FLAVS)
+            k = rng.randint(2, 12)
+            grp = [{"pid": pid + i, "fl": fl, "script": [["end", {"kind": "none"}]], "role": "counted", "mode": "service-gen", "args": None}
+                   for i in range(k)]
+            pid += k
+            gens.append(grp)
+            allp += grp
     control = [["wait-running"]] + control
     if race:
         # adopt more payloads while a shutdown with slow trio cleanup is in progress
@@ -144,11 +207,19 @@ def fam_startonce(rng):
             late.append({"pid": pid, "fl": rng.choice(FLAVS), "script": [["sleep", 0.01], ["end", {"kind": "none"}]], "role": "late", "mode": "late"})
             pid += 1
         allp += [slow] + late
-        control += [["adopt", slow["pid"]], ["wait-count", "start", len(ps) + len(helpers) + 1, 3], ["sleep", 0.08],
+        control += [["adopt", slow["pid"]], ["wait-count", "start", len(allp) - len(late), 3], ["sleep", 0.08],
                     ["threads", [[["shutdown"]], [["sleep", 0.1]] + [["adopt", l["pid"]] for l in late]]]]
     else:
-        control += [["wait-count", "start", len(allp), 3], ["sleep", 0.12], ["shutdown"]]
-    return {"family": "startonce", "race": race, "payloads": allp, "before": before, "control": control, "watchdog": 14}
+        n0 = len(allp) - sum(len(g) for g in gens)
+        control += [["wait-count", "start", n0, 3]]
+        done = 0
+        for grp in gens:
+            done += len(grp)
+            control += [["service", q["pid"]] for q in grp]
+            control += [["wait-count", "start", n0 + done, 1.5], ["sleep", 0.03]]
+            control += [["drop-service", q["pid"]] for q in grp]
+        control += [["sleep", 0.12], ["shutdown"]]
+    return {"family": "startonce", "race": race, "payloads": allp, "before": before, "control": control, "watchdog": 16}
 
 
 def fam_execute(rng):
@@ -167,11 +238,23 @@ def fam_execute(rng):
         execs.append(e)
         ctx = rng.choice(["outside", "thr"] + [c for c in ("aio", "trio") if c != fl])
         e["ctx"] = ctx
+        call = ["execute", e["pid"]]
+        r = rng.random()
+        if ctx in ("outside", "thr") and r < 0.3:
+            # unusual but legitimate calling contexts of a plain thread: a worker thread of a private
+            # trio run, a private asyncio loop (directly / through its executor), a helper thread
+            call = ["via", rng.choice(["trio-to-thread", "aio-executor", "aio-direct", "thread"]), call]
+        elif ctx in ("aio", "trio") and r < 0.3:
+            # from a worker thread the coroutine payload off-loads blocking work to
+            call = ["offload", call]
+        elif ctx in ("aio", "trio") and r < 0.45 and fl != "thr":
+            # ... which also makes executing a payload of the caller's own flavour legitimate
+            pass
         if ctx == "outside":
-            control.append(["execute", e["pid"]])
+            control.append(call)
         else:
             c = {"pid": pid, "fl": ctx, "role": "caller", "mode": "outside",
-                 "script": [["execute", e["pid"]], ["set", "done%d" % pid], ["end", {"kind": "none"}]]}
+                 "script": [call, ["set", "done%d" % pid], ["end", {"kind": "none"}]]}
             pid += 1
             callers.append(c)
             control += [["adopt", c["pid"]], ["wait-gate", "done%d" % c["pid"]]]
@@ -193,6 +276,35 @@ def fam_execute(rng):
         callers.append(c)
         before = before + [["adopt", c["pid"]]] + [["adopt", m["pid"]] for m in more]
         allp += more
+    shape = rng.random()
+    if shape < 0.12:
+        # nested executes: each executed thread-flavour payload executes the next one before it
+        # ends; the innermost one may be a coroutine payload. Depth is not bounded by anything.
+        depth = rng.choice([2, 3, 5, 24, 40, 64])
+        last = rng.choice(FLAVS)
+        chain = []
+        for i in range(depth):
+            fl = "thr" if i < depth - 1 else last
+            out = {"kind": "none"} if rng.random() < 0.7 else {"kind": "value", "v": "obj"}
+            script = ([["execute", pid + 1]] if i < depth - 1 else []) + [["end", out]]
+            chain.append({"pid": pid, "fl": fl, "script": script, "role": "executed", "out": out,
+                          "args": {"args": [], "kwargs": {}}, "ctx": "outside" if i == 0 else "thr"})
+            pid += 1
+        execs += chain
+        control.append(["execute", chain[0]["pid"]])
+    elif shape < 0.24:
+        # many executes in flight at once that depend on each other: all wait for a gate that the
+        # last one opens, each called from its own outside thread
+        n = rng.choice([2, 4, 12, 24, 40])
+        fl = rng.choice(FLAVS)
+        grp = []
+        for i in range(n):
+            script = [["wait", "rv"], ["end", {"kind": "none"}]] if i < n - 1 else [["set", "rv"], ["end", {"kind": "none"}]]
+            grp.append({"pid": pid, "fl": fl, "script": script, "role": "executed", "out": {"kind": "none"},
+                        "args": {"args": [], "kwargs": {}}, "ctx": "outside"})
+            pid += 1
+        execs += grp
+        control.append(["threads", [[["execute", g["pid"]]] for g in grp[:-1]] + [[["sleep", 0.05], ["execute", grp[-1]["pid"]]]]])
     allp += helpers + execs + callers
     control = [["wait-running"]] + ctl2 + [["wait-count", "start", len(by) + 1 + len(helpers), 3]] + control + [["sleep", 0.05], ["shutdown"]]
     return {"family": "execute", "payloads": allp, "before": before, "control": control, "watchdog": 14}
@@ -218,7 +330,31 @@ def fam_threads(rng):
         e = {"pid": pid, "fl": fl, "script": [["spin", 5], ["end", {"kind": "none"}]], "role": "executed"}
         pid += 1
         execs.append(e)
-        ctl_exec.append(["execute", e["pid"]])
+        call = ["execute", e["pid"]]
+        r = rng.random()
+        if r < 0.35:
+            call = ["via", rng.choice(["trio-to-thread", "aio-executor", "aio-direct", "thread"]), call]
+        if r < 0.7:
+            ctl_exec.append(call)
+        else:
+            # called by a payload: a thread payload, or a coroutine payload through a worker thread
+            cfl = rng.choice(FLAVS)
+            c = {"pid": pid, "fl": cfl, "role": "caller", "mode": "outside",
+                 "script": [call if cfl == "thr" else ["offload", call], ["end", {"kind": "none"}]]}
+            pid += 1
+            execs.append(c)
+            ctl_exec.append(["adopt", c["pid"]])
+    # coroutine payloads that adopt further payloads of their own flavour in the middle of a
+    # checkpoint-free section (the adopted ones must not run before the adopter yields)
+    for _ in range(rng.randint(0, 2)):
+        fl = rng.choice(["aio", "trio"])
+        kids = [{"pid": pid + 1 + i, "fl": fl, "script": [["spin", 3], ["end", {"kind": "none"}]], "role": "co-late", "mode": "inside"}
+                for i in range(rng.randint(1, 3))]
+        h = {"pid": pid, "fl": fl, "role": "helper", "mode": "outside",
+             "script": [["adopt", k["pid"]] for k in kids] + [["forever", 0.01]]}
+        pid += 1 + len(kids)
+        execs += [h] + kids
+        ctl_exec.append(["adopt", h["pid"]])
     control = [["wait-running"]] + control + [["wait-count", "start", len(allp), 3]] + ctl_exec + [["sleep", 0.3], ["shutdown"]]
     return {"family": "threads", "payloads": allp + execs, "before": before, "control": control, "watchdog": 14}
 
@@ -238,11 +374,30 @@ def fam_lifecycle(rng):
         ctl = [["wait-running", rid]]
         ctl += [["adopt", b["pid"], rid] for b in by]
         ctl += [["wait-count", "start", sum(1 for x in payloads if x.get("role") in ("bystander", "failing")) + len(by), 3]]
-        if rng.random() < 0.6:
-            ctl.append(["accept-thread", 50 + r])
-        end = rng.choice(["shutdown", "shutdown", "sigint", "failure", "shutdown-thread-payload"])
+        # zero to three concurrent accept attempts, on other runner instances or on the active one
+        for k in range(rng.choice([0, 1, 1, 2, 3])):
+            ctl.append(["accept-thread", rng.choice([50 + r, 60 + r, rid])])
+            if rng.random() < 0.5:
+                ctl.append(["sleep", rng.choice([0.0, 0.01, 0.03])])
+        end = rng.choice(["shutdown", "shutdown", "sigint", "failure", "shutdown-thread-payload", "shutdown-adopters"])
         ctl.append(["sleep", rng.choice([0.0, 0.01, 0.03, 0.08])])
-        if end == "shutdown":
+        if end == "shutdown-adopters":
+            # shutdown while other threads keep adopting payloads of every flavour, with a trio
+            # payload whose shielded cleanup keeps the trio run alive for a while
+            slow = {"pid": pid, "fl": "trio", "script": [["forever", 0.01]], "cleanup": {"shielded": rng.choice([0.1, 0.3, 0.5])},
+                    "role": "bystander", "mode": "outside"}
+            pid += 1
+            late = []
+            for _ in range(rng.randint(20, 60)):
+                late.append({"pid": pid, "fl": rng.choice(["trio", "trio", "aio", "thr"]), "script": [["end", {"kind": "none"}]], "role": "late", "mode": "late"})
+                pid += 1
+            by += [slow] + late
+            half = len(late) // 2
+            ctl += [["adopt", slow["pid"], rid], ["wait-count", "start", sum(1 for x in payloads + by if x.get("role") in ("bystander", "failing")), 3],
+                    ["threads", [[["sleep", 0.03], ["shutdown", rid]],
+                                 [y for l in late[:half] for y in (["adopt", l["pid"], rid], ["sleep", 0.004])],
+                                 [y for l in late[half:] for y in (["adopt", l["pid"], rid], ["sleep", 0.007])]]]]
+        elif end == "shutdown":
             ctl.append(["shutdown", rid])
         elif end == "sigint":
             ctl.append(["sigint"])
